@@ -1,15 +1,70 @@
 (* C01 - Encode/Decode round-trip preserves every KMIP message value.
-   Statements only.  (This file grows with CodecRT.v; what is stated here is what is proved.) *)
+   Statements only.  Codec.v is the model of encode.go / decode.go (tied to /repo by the codec
+   correspondence on every run); CodecRT.v holds the proofs; Instance.v / InstanceProofs.v the
+   schema regenerated from /repo. *)
 From Coq Require Import String.
 From Coq Require Import List NArith ZArith.
-Require Import Bytes Schema Codec CodecRT.
+Require Import Bytes Schema Fields Codec CodecRT SchemaCheck Generated Instance InstanceProofs.
 Import ListNotations.
 Open Scope N_scope.
 
-(* every primitive value in range - 32/64-bit integers, enumerations, booleans, arbitrary byte and text
-   strings of any length, whole-second date-times, intervals of 0..2^32-1 seconds - decodes, from a
-   decoder positioned at the item (tag already peeked or not), to itself, consuming exactly the item
-   and leaving no look-ahead, whatever follows on the stream *)
+(* GENERIC: for EVERY type environment whose structures satisfy the schema conditions (env_ok), every
+   structure type with a proper own tag, and EVERY well-formed message value of it - unbounded depth,
+   widths, string lengths, sequence lengths; dynamic payloads agreeing with the dispatch table -
+   decoding the bytes Encode produced, from a stream with anything after them, yields the normalised
+   value (pointer payloads -> value payloads, never-encoded fields cleared), consumes exactly the
+   message and leaves no look-ahead *)
+Theorem C01_roundtrip : forall T, env_ok T ->
+  forall ty tag fl vs b tl,
+    T ty = Some (tag, fl) -> tag_ok tag -> wf T (SStruct ty fl) VNil (VStruct ty vs) ->
+    enc_top T (VStruct ty vs) = Some b ->
+    dec_top ty tag fl {| rest := (b ++ tl)%list; last := 0 |}
+    = Ok (VStruct ty (normalize_fields T fl vs), blen b, {| rest := tl; last := 0 |}).
+Proof. exact roundtrip_top. Qed.
+Print Assumptions C01_roundtrip.
+
+(* a pointer to a message is encoded like the message (pointer versus value payloads) *)
+Theorem C01_pointer_top : forall T ty vs, enc_top T (VPtr (VStruct ty vs)) = enc_top T (VStruct ty vs).
+Proof. exact enc_top_ptr. Qed.
+Print Assumptions C01_pointer_top.
+
+(* INSTANCE: the schema regenerated from /repo on this run satisfies the conditions (re-checked by
+   vm_compute whenever a struct, an annotation or a dispatch switch changes), Request and Response
+   carry proper tags *)
+Theorem C01_instance_schema_ok : env_ok inst_T.
+Proof. exact inst_codec_env_ok. Qed.
+Print Assumptions C01_instance_schema_ok.
+
+Theorem C01_instance_messages :
+  (exists fl, inst_T "Request" = Some (request_tag, fl)) /\ (exists fl, inst_T "Response" = Some (response_tag, fl)) /\
+  tag_ok request_tag /\ tag_ok response_tag.
+Proof. exact (conj inst_request_type (conj inst_response_type message_tags_ok)). Qed.
+Print Assumptions C01_instance_messages.
+
+(* hence: Request and Response of the current tree round-trip *)
+Theorem C01_request_roundtrip : forall fl vs b tl,
+  inst_T "Request" = Some (request_tag, fl) -> wf inst_T (SStruct "Request" fl) VNil (VStruct "Request" vs) ->
+  inst_enc_top (VStruct "Request" vs) = Some b ->
+  dec_top "Request" request_tag fl {| rest := (b ++ tl)%list; last := 0 |}
+  = Ok (VStruct "Request" (normalize_fields inst_T fl vs), blen b, {| rest := tl; last := 0 |}).
+Proof.
+  intros fl vs b tl HT Hwf He.
+  exact (roundtrip_top inst_T inst_codec_env_ok "Request" request_tag fl vs b tl HT (proj1 message_tags_ok) Hwf He).
+Qed.
+Print Assumptions C01_request_roundtrip.
+
+Theorem C01_response_roundtrip : forall fl vs b tl,
+  inst_T "Response" = Some (response_tag, fl) -> wf inst_T (SStruct "Response" fl) VNil (VStruct "Response" vs) ->
+  inst_enc_top (VStruct "Response" vs) = Some b ->
+  dec_top "Response" response_tag fl {| rest := (b ++ tl)%list; last := 0 |}
+  = Ok (VStruct "Response" (normalize_fields inst_T fl vs), blen b, {| rest := tl; last := 0 |}).
+Proof.
+  intros fl vs b tl HT Hwf He.
+  exact (roundtrip_top inst_T inst_codec_env_ok "Response" response_tag fl vs b tl HT (proj2 message_tags_ok) Hwf He).
+Qed.
+Print Assumptions C01_response_roundtrip.
+
+(* primitives: every value in range round-trips *)
 Theorem C01_primitive_roundtrip : forall k tag v b tl st,
   tag <> 0 -> tag < 2 ^ 24 -> wf_prim k v -> enc_prim tag k v = Some b -> at_item tag b tl st ->
   dec_prim k tag st = Ok (v, blen b, {| rest := tl; last := 0 |}).
